@@ -112,7 +112,7 @@ fn op_m_init(a: &[&str]) -> Res {
                 t.borrow_mut().push(Some(vbs));
                 t.borrow().len() - 1
             });
-            Ok(vec!["1".into(), ser(&sig), format!("#{}", id)])
+            Ok(vec!["1".into(), stash(sig), format!("#{}", id)])
         }
     }
 }
@@ -120,17 +120,21 @@ fn op_m_activate(a: &[&str]) -> Res {
     let m = mcfg(arg(a, 0)?)?;
     let id = handle(arg(a, 1)?)?;
     let vbs = VBS.with(|t| t.borrow_mut().get_mut(id).and_then(|x| x.take())).ok_or("no such vbs")?;
-    Ok(vec![ser(&with_rng(|r| m.activate(r, vbs)))])
+    Ok(vec![stash(with_rng(|r| m.activate(r, vbs)))])
 }
 /// A reply that cannot even be decoded is a refusal that happens before the state machine is
 /// touched; it is reported as `undecodable` and the state is by construction unchanged.
 macro_rules! reply {
-    ($ty:ty, $a:expr, $i:expr) => {
-        match de::<$ty>(&arg_bytes($a, $i)?) {
-            Ok(x) => x,
-            Err(_) => return Ok(vec!["undecodable".into()]),
+    ($ty:ty, $a:expr, $i:expr) => {{
+        let bytes = arg_bytes($a, $i)?;
+        match unstash::<$ty>(&bytes) {
+            Some(x) => x,
+            None => match de::<$ty>(&bytes) {
+                Ok(x) => x,
+                Err(_) => return Ok(vec!["undecodable".into()]),
+            },
         }
-    };
+    }};
 }
 fn op_req_complete(a: &[&str]) -> Res {
     let st = arg_de::<Requested>(a, 0)?;
@@ -183,7 +187,7 @@ fn op_m_allow(a: &[&str]) -> Res {
                 t.borrow_mut().push(Some(u));
                 t.borrow().len() - 1
             });
-            Ok(vec!["1".into(), format!("#{}", id), ser(&sig)])
+            Ok(vec!["1".into(), format!("#{}", id), stash(sig)])
         }
     }
 }
@@ -213,7 +217,7 @@ fn op_u_complete(a: &[&str]) -> Res {
     };
     let u = UNREV.with(|t| t.borrow_mut().get_mut(id).and_then(|x| x.take())).ok_or("no such unrevoked")?;
     match with_rng(|r| u.complete_payment(r, &pair, &bf)) {
-        Ok(tok) => Ok(vec!["ok".into(), ser(&tok)]),
+        Ok(tok) => Ok(vec!["ok".into(), stash(tok)]),
         Err(u) => {
             UNREV.with(|t| t.borrow_mut()[id] = Some(u));
             Ok(vec!["refused".into()])
